@@ -27,7 +27,7 @@ open Primaite.Gen.Nondet
 
 /-- **run_indep_of_env** (partial: `StampLenAgree` excludes exactly F-9).  Construct the environment with the configured
 seed and play any operation list: the canonical trajectory does not depend on the opaque environment. -/
-theorem C03_run_indep_of_env {ι ι' Cfg σ Act : Type} [DecidableEq ι] [DecidableEq ι'] (g : Fixed)
+theorem C03_run_indep_of_env_agree {ι ι' Cfg σ Act : Type} [DecidableEq ι] [DecidableEq ι'] (g : Fixed)
     (sim : Sim Cfg σ Act) (sched : Nat → Cfg) (seed : Nat) (ops : List (Op Act)) (ρ : Rho ι) (ρ' : Rho ι')
     (hv : ρ.Valid) (hv' : ρ'.Valid) (hs : sim.Safe g.seeds (StampLenAgree g ρ ρ')) :
     run g sim sched seed ops ρ = run g sim sched seed ops ρ' := by
@@ -42,7 +42,7 @@ theorem C03_run_indep_of_env_repaired_size {ι ι' Cfg σ Act : Type} [Decidable
     (sim : Sim Cfg σ Act) (sched : Nat → Cfg) (seed : Nat) (ops : List (Op Act)) (ρ : Rho ι) (ρ' : Rho ι')
     (hv : ρ.Valid) (hv' : ρ'.Valid) (hs : sim.Safe g.seeds False) :
     run g sim sched seed ops ρ = run g sim sched seed ops ρ' :=
-  C03_run_indep_of_env g sim sched seed ops ρ ρ' hv hv'
+  C03_run_indep_of_env_agree g sim sched seed ops ρ ρ' hv hv'
     ⟨fun c => (hs.construct c).mono False.elim, fun c => (hs.rebuild c).mono False.elim,
      fun s a => (hs.step s a).mono False.elim⟩
 
@@ -50,7 +50,7 @@ theorem C03_run_indep_of_env_repaired_size {ι ι' Cfg σ Act : Type} [Decidable
 different positions in different environments) that are about to start the same episode index. After
 `reset(seed = s)` the same later operations give the same canonical trajectory: the episode is a function of
 (schedule, episode index, s, operations) only. -/
-theorem C03_reseed_reproduces {ι ι' Cfg σ Act : Type} [DecidableEq ι] [DecidableEq ι'] (g : Fixed)
+theorem C03_reseed_reproduces_agree {ι ι' Cfg σ Act : Type} [DecidableEq ι] [DecidableEq ι'] (g : Fixed)
     (sim : Sim Cfg σ Act) (sched : Nat → Cfg) (ρ : Rho ι) (ρ' : Rho ι') (hv : ρ.Valid) (hv' : ρ'.Valid)
     (hs : sim.Safe g.seeds (StampLenAgree g ρ ρ')) (p p' : Proc σ) (he : p.episode = p'.episode) (s : Nat)
     (ops : List (Op Act)) :
@@ -74,16 +74,17 @@ theorem C03_reseed_reproduces {ι ι' Cfg σ Act : Type} [DecidableEq ι] [Decid
 
 /-- Corollary in the words of the property: the episode after `reset(seed = s)` does not depend on the history `pre`
 played before it (same number of earlier resets `= episode index`), nor on the environment. -/
-theorem C03_reseed_history_irrelevant {ι Cfg σ Act : Type} [DecidableEq ι] (g : Fixed)
+theorem C03_reseed_history_irrelevant_agree {ι Cfg σ Act : Type} [DecidableEq ι] (g : Fixed)
     (sim : Sim Cfg σ Act) (sched : Nat → Cfg) (ρ ρ' : Rho ι) (hv : ρ.Valid) (hv' : ρ'.Valid)
     (hs : sim.Safe g.seeds (StampLenAgree g ρ ρ')) (st st' : σ) (w w' : World) (e : Nat) (s : Nat) (ops : List (Op Act)) :
     canonRun [] (runOps g ρ sim sched { episode := e, st := st, w := w } (.reset (some s) :: ops)) =
       canonRun [] (runOps g ρ' sim sched { episode := e, st := st', w := w' } (.reset (some s) :: ops)) :=
-  C03_reseed_reproduces g sim sched ρ ρ' hv hv' hs { episode := e, st := st, w := w } { episode := e, st := st', w := w' } rfl s ops
+  C03_reseed_reproduces_agree g sim sched ρ ρ' hv hv' hs { episode := e, st := st, w := w } { episode := e, st := st', w := w' } rfl s ops
 
-/-! ## the full statement, and why it is false of the code as it is (finding F-9) -/
+/-! ## the statement for VARIABLE-width readings, and why it is false (the code before the F-9 repair) -/
 
-/-- Full statement: no hypothesis on the clock (only the set consumers must be invariant). -/
+/-- The statement with NO hypothesis on the text-length function (any `g`, e.g. the pre-repair ISO text that drops a zero
+microsecond field): false, `C03_full_counterexample`. With `g.FixedWidth` it is `C03_run_indep_of_env`. -/
 def C03_Full : Prop :=
   ∀ (Cfg σ Act : Type) (g : Fixed) (sim : Sim Cfg σ Act) (sched : Nat → Cfg) (seed : Nat) (ops : List (Op Act))
     (ρ ρ' : Rho Nat), ρ.Valid → ρ'.Valid → sim.Safe g.seeds True → run g sim sched seed ops ρ = run g sim sched seed ops ρ'
@@ -129,7 +130,7 @@ theorem C03_full_counterexample : ¬ C03_Full := by
 /-- The same pair of environments is harmless when all readings have texts of the same length … -/
 example : run demoFixed (linkSim 520) (fun _ => ()) 0 [.step (), .reset (some 3), .step ()] rhoMicros =
     run demoFixed (linkSim 520) (fun _ => ()) 0 [.step (), .reset (some 3), .step ()] rhoReversed :=
-  C03_run_indep_of_env demoFixed _ _ _ _ _ _ rhoMicros_valid rhoReversed_valid
+  C03_run_indep_of_env_agree demoFixed _ _ _ _ _ _ rhoMicros_valid rhoReversed_valid
     (linkSim_safe 520 _ _ (fun _ _ => rfl))
 
 /-- … and the hypotheses of the partial theorem are met by a non-trivial pair (different set orders, same text lengths). -/
@@ -159,7 +160,7 @@ theorem C03_raw_set_iteration_counterexample :
 theorem C03_sorted_scan_indep (ops : List (Op (List Nat))) (seed : Nat) {ι ι' : Type} [DecidableEq ι] [DecidableEq ι']
     (ρ : Rho ι) (ρ' : Rho ι') (hv : ρ.Valid) (hv' : ρ'.Valid) :
     run demoFixed (scanSim sortedIter) (fun _ => ()) seed ops ρ = run demoFixed (scanSim sortedIter) (fun _ => ()) seed ops ρ' :=
-  C03_run_indep_of_env demoFixed _ _ _ _ _ _ hv hv' (scanSim_sorted_safe _ _)
+  C03_run_indep_of_env_agree demoFixed _ _ _ _ _ _ hv hv' (scanSim_sorted_safe _ _)
 
 example : run demoFixed (scanSim sortedIter) (fun _ => ()) 0 [.step [10, 1, 14]] rhoReversed = [[.val 1, .val 10, .val 14]] := by
   decide
@@ -285,18 +286,18 @@ theorem toOps_reset_none {Act : Type} (cs : List (COp Act)) :
 value `s ≥ 0` — zero included — and every later call sequence (steps, resets with any `Optional[int]`, foreign draws):
 two processes in arbitrary states that are about to start the same episode index produce the same canonical trajectory
 after `env.reset(seed=s)`. -/
-theorem C03_code_reseed_reproduces {ι ι' Cfg σ Act : Type} [DecidableEq ι] [DecidableEq ι'] (g : Fixed)
+theorem C03_code_reseed_reproduces_agree {ι ι' Cfg σ Act : Type} [DecidableEq ι] [DecidableEq ι'] (g : Fixed)
     (sim : Sim Cfg σ Act) (sched : Nat → Cfg) (ρ : Rho ι) (ρ' : Rho ι') (hv : ρ.Valid) (hv' : ρ'.Valid)
     (hs : sim.Safe g.seeds (StampLenAgree g ρ ρ')) (p p' : Proc σ) (he : p.episode = p'.episode) (s : Nat)
     (cs : List (COp Act)) :
     canonRun [] (runOps g ρ sim sched p (codeShape.toOps false (.reset (some (s : Int)) :: cs))) =
       canonRun [] (runOps g ρ' sim sched p' (codeShape.toOps false (.reset (some (s : Int)) :: cs))) := by
   rw [toOps_reset_some]
-  exact C03_reseed_reproduces g sim sched ρ ρ' hv hv' hs p p' he s _
+  exact C03_reseed_reproduces_agree g sim sched ρ ρ' hv hv' hs p p' he s _
 
 /-- **The generators right after `reset(seed=s)` are the same in every process and after every history** (the rig's
 `rng` digest on the reset line is the implementation-side reading of this). -/
-theorem C03_generators_after_reseed {ι ι' Cfg σ Act : Type} [DecidableEq ι] [DecidableEq ι'] (g : Fixed)
+theorem C03_generators_after_reseed_agree {ι ι' Cfg σ Act : Type} [DecidableEq ι] [DecidableEq ι'] (g : Fixed)
     (sim : Sim Cfg σ Act) (sched : Nat → Cfg) (ρ : Rho ι) (ρ' : Rho ι') (hv : ρ.Valid) (hv' : ρ'.Valid)
     (hs : sim.Safe g.seeds (StampLenAgree g ρ ρ')) (p p' : Proc σ) (he : p.episode = p'.episode) (s : Nat) :
     (doReset g ρ sim sched p (some s)).1.w.rng = (doReset g ρ' sim sched p' (some s)).1.w.rng ∧
@@ -361,11 +362,11 @@ theorem C03_unseeded_family_counterexample :
     run demoFixed (drawSim .np) (fun _ => ()) 0 [.step ()] rhoMicros =
       run demoFixed (drawSim .np) (fun _ => ()) 0 [.step ()] rhoEntropy7 := by
   refine ⟨by decide, ?_⟩
-  exact C03_run_indep_of_env demoFixed _ _ _ _ _ _ rhoMicros_valid rhoEntropy7_valid (drawSim_safe _ _ rfl _)
+  exact C03_run_indep_of_env_agree demoFixed _ _ _ _ _ _ rhoMicros_valid rhoEntropy7_valid (drawSim_safe _ _ rfl _)
 
 /-- **"Nothing else consumes the global generators" is a hypothesis, not a consequence.** A foreign draw (another
 environment instance, the training loop) between `reset(seed=s)` and a step changes the episode; foreign draws BEFORE the
-re-seeding do not (`C03_reseed_reproduces` quantifies over arbitrary earlier generator states). -/
+re-seeding do not (`C03_reseed_reproduces_agree` quantifies over arbitrary earlier generator states). -/
 theorem C03_foreign_draw_counterexample :
     canonRun [] (runOps demoFixed rhoMicros (drawSim .py) (fun _ => ()) { episode := 0, st := (), w := {} }
         [.reset (some 3), .step ()]) ≠
@@ -376,7 +377,7 @@ theorem C03_foreign_draw_counterexample :
       [[]] ++ canonRun [] (runOps demoFixed rhoMicros (drawSim .py) (fun _ => ()) { episode := 0, st := (), w := {} }
         [.reset (some 3), .step ()]) := by decide
 
-/-- non-vacuity of `C03_code_reseed_reproduces`: the two episodes really are re-seeded, and a different seed gives a different one -/
+/-- non-vacuity of `C03_code_reseed_reproduces_agree`: the two episodes really are re-seeded, and a different seed gives a different one -/
 example : canonRun [] (runOps demoFixed rhoMicros (drawSim .py) (fun _ => ()) { episode := 0, st := (), w := { rng := fun _ => 5 } }
       (codeShape.toOps false [.reset (some 0), .step ()])) = [[], [.val 3]] ∧
     canonRun [] (runOps demoFixed rhoMicros (drawSim .py) (fun _ => ()) { episode := 0, st := (), w := { rng := fun _ => 5 } }
@@ -451,6 +452,60 @@ theorem C03_process_globals_discharged :
       (entries.any fun e => e.name == t.1 && (e.uncondWriters.map fun i => fns.getD i "?").contains "game.game:PrimaiteGame.from_config")) = true := by
   decide +kernel
 
+/-! ## full strength: after the F-9 repair the text of every reading has a constant width
+
+`g.FixedWidth` is a property of the CODE's text-length function (tied to the source by `C03_gen_fixed_width_readings`), not of
+the environments: no hypothesis on the clock or on secrets remains. `sim.Safe g.seeds True`: frame sizes MAY be computed from
+readings. The `_agree` theorems above are the general lemmas (any text-length function, environments that agree). -/
+
+theorem Sim.Safe.of_fixedWidth {Cfg σ Act : Type} {sim : Sim Cfg σ Act} {g : Fixed} (hw : g.FixedWidth) (hs : sim.Safe g.seeds True)
+    {ι ι' : Type} (ρ : Rho ι) (ρ' : Rho ι') : sim.Safe g.seeds (StampLenAgree g ρ ρ') :=
+  ⟨fun c => (hs.construct c).mono fun _ _ _ => hw _ _, fun c => (hs.rebuild c).mono fun _ _ _ => hw _ _,
+   fun s a => (hs.step s a).mono fun _ _ _ => hw _ _⟩
+
+/-- **run_indep_of_env, FULL.** For every simulator over the interface, schedule, seed, operation list and every two valid
+environments (any clock readings, any identifiers, any set orders, any entropy): the same canonical trajectory. -/
+theorem C03_run_indep_of_env {ι ι' Cfg σ Act : Type} [DecidableEq ι] [DecidableEq ι'] (g : Fixed) (hw : g.FixedWidth)
+    (sim : Sim Cfg σ Act) (sched : Nat → Cfg) (seed : Nat) (ops : List (Op Act)) (ρ : Rho ι) (ρ' : Rho ι')
+    (hv : ρ.Valid) (hv' : ρ'.Valid) (hs : sim.Safe g.seeds True) :
+    run g sim sched seed ops ρ = run g sim sched seed ops ρ' :=
+  C03_run_indep_of_env_agree g sim sched seed ops ρ ρ' hv hv' (hs.of_fixedWidth hw ρ ρ')
+
+/-- **reseed_reproduces, FULL.** -/
+theorem C03_reseed_reproduces {ι ι' Cfg σ Act : Type} [DecidableEq ι] [DecidableEq ι'] (g : Fixed) (hw : g.FixedWidth)
+    (sim : Sim Cfg σ Act) (sched : Nat → Cfg) (ρ : Rho ι) (ρ' : Rho ι') (hv : ρ.Valid) (hv' : ρ'.Valid)
+    (hs : sim.Safe g.seeds True) (p p' : Proc σ) (he : p.episode = p'.episode) (s : Nat) (ops : List (Op Act)) :
+    canonRun [] (runOps g ρ sim sched p (.reset (some s) :: ops)) =
+      canonRun [] (runOps g ρ' sim sched p' (.reset (some s) :: ops)) :=
+  C03_reseed_reproduces_agree g sim sched ρ ρ' hv hv' (hs.of_fixedWidth hw ρ ρ') p p' he s ops
+
+/-- **reseed_reproduces in the caller's vocabulary, FULL** (every seed value `s ≥ 0`, zero included). -/
+theorem C03_code_reseed_reproduces {ι ι' Cfg σ Act : Type} [DecidableEq ι] [DecidableEq ι'] (g : Fixed) (hw : g.FixedWidth)
+    (sim : Sim Cfg σ Act) (sched : Nat → Cfg) (ρ : Rho ι) (ρ' : Rho ι') (hv : ρ.Valid) (hv' : ρ'.Valid)
+    (hs : sim.Safe g.seeds True) (p p' : Proc σ) (he : p.episode = p'.episode) (s : Nat) (cs : List (COp Act)) :
+    canonRun [] (runOps g ρ sim sched p (codeShape.toOps false (.reset (some (s : Int)) :: cs))) =
+      canonRun [] (runOps g ρ' sim sched p' (codeShape.toOps false (.reset (some (s : Int)) :: cs))) :=
+  C03_code_reseed_reproduces_agree g sim sched ρ ρ' hv hv' (hs.of_fixedWidth hw ρ ρ') p p' he s cs
+
+/-- **generators after re-seeding, FULL.** -/
+theorem C03_generators_after_reseed {ι ι' Cfg σ Act : Type} [DecidableEq ι] [DecidableEq ι'] (g : Fixed) (hw : g.FixedWidth)
+    (sim : Sim Cfg σ Act) (sched : Nat → Cfg) (ρ : Rho ι) (ρ' : Rho ι') (hv : ρ.Valid) (hv' : ρ'.Valid)
+    (hs : sim.Safe g.seeds True) (p p' : Proc σ) (he : p.episode = p'.episode) (s : Nat) :
+    (doReset g ρ sim sched p (some s)).1.w.rng = (doReset g ρ' sim sched p' (some s)).1.w.rng ∧
+    (doReset g ρ sim sched p (some s)).1.st = (doReset g ρ' sim sched p' (some s)).1.st :=
+  C03_generators_after_reseed_agree g sim sched ρ ρ' hv hv' (hs.of_fixedWidth hw ρ ρ') p p' he s
+
+/-- the repaired code's text length: 26 characters for every clock reading (5 for every identifier: `Justified .fixedWidthReading`) -/
+def repairedFixed : Fixed := { demoFixed with textLen := fun _ => 26 }
+theorem repairedFixed_fixedWidth : repairedFixed.FixedWidth := fun _ _ => rfl
+
+/-- non-vacuity: the pair of environments that refutes the variable-width statement (`C03_full_counterexample`: one clock on a whole
+second, one not) is harmless for the repaired text length, on the very link that told them apart -/
+example : run repairedFixed (linkSim 520) (fun _ => ()) 0 [.step (), .reset (some 3), .step ()] rhoWholeSecond =
+    run repairedFixed (linkSim 520) (fun _ => ()) 0 [.step (), .reset (some 3), .step ()] rhoMicros :=
+  C03_run_indep_of_env repairedFixed repairedFixed_fixedWidth _ _ _ _ _ _ rhoWholeSecond_valid rhoMicros_valid
+    (linkSim_safe 520 _ True trivial)
+
 /-! ## the translator tie: every site of the regenerated inventory is discharged -/
 
 set_option maxRecDepth 100000 in
@@ -473,7 +528,7 @@ attributed to the open finding. (Before this round: 30 by lemma, 28 by reading, 
 theorem C03_discharge_counts :
     (table.length, (table.filter fun e => e.2.basis == .lemma).length, (table.filter fun e => e.2.basis == .mechanical).length,
      (table.filter fun e => e.2.basis == .trusted).length, (table.filter fun e => e.2.basis == .openFinding).length) =
-    (70, 17, 42, 7, 4) := by
+    (70, 17, 46, 7, 0) := by
   decide
 
 set_option maxRecDepth 100000 in
@@ -501,8 +556,23 @@ theorem C03_identifier_uses :
     ((sites.filter fun s => s.kind == .idOrder).length, (table.filter fun e => e.1.kind == .idText).map (·.2)) =
     (0, [.idTextEqOnly, .idTextEqOnly]) := by decide
 
-/-- Exactly the sites attributed to the open finding F-9. -/
-theorem C03_f9_sites : (table.filter fun e => e.2 == .readingLenF9).map (fun e => (e.1.file, e.1.scope)) =
+open Primaite.Gen.Nondet in
+/-- **Gen obligation (F-9 repair).** The datetime-typed model fields of the tree are exactly these five; the three that are part of a
+frame's JSON (`Frame.sent_timestamp`, `Frame.received_timestamp`, `NTPReply.ntp_datetime`) have a JSON serialiser that returns
+`isoformat(timespec='microseconds')` (constant 26 characters); the other two (`NTPClient.time`, `TerminalClientConnection.time`) are
+service state, never inside a frame. A new datetime field, or a removed / altered serialiser, breaks this; the identifier range is
+pinned by `C03_facts_support_discharges` (`boundedSecret 10000 65535`). -/
+theorem C03_gen_fixed_width_readings :
+    datetimeFields =
+      [ ("simulator/network/protocols/ntp.py", "NTPReply", "ntp_datetime", true),
+        ("simulator/network/transmission/data_link_layer.py", "Frame", "sent_timestamp", true),
+        ("simulator/network/transmission/data_link_layer.py", "Frame", "received_timestamp", true),
+        ("simulator/system/services/ntp/ntp_client.py", "NTPClient", "time", false),
+        ("simulator/system/services/terminal/terminal.py", "TerminalClientConnection", "time", false) ] ∧
+    (frameDatetimeFields.all serialisedFixedWidth) = true := by decide
+
+/-- Exactly the sites whose reading's TEXT reaches Frame.size (finding F-9, repaired: fixed width). -/
+theorem C03_fixed_width_sites : (table.filter fun e => e.2 == .fixedWidthReading).map (fun e => (e.1.file, e.1.scope)) =
     [("simulator/network/protocols/icmp.py", "ICMPPacket.__init__"),
      ("simulator/network/transmission/data_link_layer.py", "Frame.set_received_timestamp"),
      ("simulator/network/transmission/data_link_layer.py", "Frame.set_sent_timestamp"),
